@@ -350,7 +350,7 @@ fn run(ctx: &mut Ctx) {
         }
     });
     // ---- sample counts at and beyond the 16-bit limits (requested_samples is a 16-bit field, the slice is not)
-    ctx.cases("huge", ctx.tier.pick(12, 60), |ctx, i, rng| {
+    ctx.cases("huge", ctx.tier.pick(12, 120), |ctx, i, rng| {
         let ns = [32766usize, 32767, 32768, 65533, 65534, 65535, 65536, 65537, 65536 + 64, 65536 + 697, 131072, 70000];
         let n = ns[(i as usize) % ns.len()];
         let kind = rng.usize(12);
@@ -398,7 +398,7 @@ fn run(ctx: &mut Ctx) {
         }
     });
     // ---- random mutations of (mostly accepted) packets
-    let nrand = ctx.tier.pick(120_000, 3_000_000);
+    let nrand = ctx.tier.pick(120_000, 30_000_000);
     ctx.cases("random", nrand, |ctx, _i, rng| {
         let n = 64 + rng.usize(40) + if rng.chance(0.05) { rng.usize(700) } else { 0 };
         let kind = rng.usize(12);
